@@ -3,6 +3,16 @@
 import json, pathlib, sys
 V = pathlib.Path(__file__).resolve().parent.parent
 CHECKS = {
+ "C15": dict(
+   technique="property-based testing: Hypothesis-generated points/vectors in each system's domain (all octants, pi-multiples and rational angles) vs. harness textbook maps and frames (reference model); round-trip, inverse-equals-transpose, direct-equals-via-third (differential) over all 6 ordered pairs and 6 triples; Lame coefficients vs |dX/dq_i|",
+   text="640 generated cases + 27 enumerated quick / 20k thorough; every case exercises all ordered pairs and triples: scalar conversions there-and-back and against the harness maps, base-vector tables orthonormal with det +1, inverse = transpose, composition via the third system, convert_point / convert_vector preserve Cartesian position and components, scale factors and Jacobian equal the derivatives of the position map, unsupported pairs refused.",
+   note="Trusted: harness maps X(q) and frames in the experimental convention (r, theta=polar, phi=azimuth), 50-digit mpmath. AppliedPoint.equals is only counted (relies on simplify).",
+   ref="DESIGN.md section 2/C15; notes/C15.md"),
+ "C16": dict(
+   technique="property-based testing: generated linear combinations of vector atoms/products with symbolic coefficients and every choice of unknown vs. the R^3 component model (reference model) under 2 rational assignments; residual check for solve_for_scalar; structural + value check for apply; refusal classes",
+   text="5200 cases quick / 60k thorough: with E = lhs - rhs and s the coefficient of the isolated term recovered from the description, the returned equation must satisfy ret.lhs - ret.rhs == E/s (reduce on) or +-E (reduce off); unknown absent -> ValueError, scalar expression -> TypeError; solve_for_scalar results substituted back give residual 0; apply maps both sides.",
+   note="Trusted: vp/model/r3.py. 'No answer' from SymPy's solve (IndexError etc.) is counted, not judged; numerically degenerate assignments (coplanar vectors) are discarded by a 120-digit conditioning probe.",
+   ref="DESIGN.md section 2/C16; notes/C16.md"),
  "C12": dict(
    technique="property-based testing: generic undefined-function fields over all shapes (symbolic identities decide a whole shape) + Hypothesis-generated concrete fields vs. a harness-computed Cartesian truth through the local orthonormal frame (reference model), curl grad = 0 and div curl = 0 identities",
    text="54 generic shapes (3 systems x scalar / 0-4 components x construction modes) are judged symbolically against a harness derivation (frame vectors and inverse Jacobian of the textbook maps), so the nine curvilinear formulas are compared for arbitrary smooth fields; 240 generated concrete fields quick / 4000 thorough are judged numerically at 5 regular points through a second harness derivation; zero padding and the 4-component refusal are checked.",
